@@ -6,12 +6,15 @@ The model covers the whole class (all 57 registered keys: text, TXXX, genre, dat
 originaldate, `performer:*`, musicbrainz_trackid, website, `replaygain_*_gain|peak`; `keys()`
 with the two listers; the native `ID3` as a dict HashKey → frame) and is tied to the real
 object operation by operation, native frames included.  What is PROVED is the part of the view
-that follows mapping semantics and that this round got to: the 53 keys whose handler reads
+that follows mapping semantics and that has been reached so far: the 53 keys whose handler reads
 and writes one frame under a fixed HashKey (`eiPlain`: text, TXXX, genre, date, originaldate,
-musicbrainz_trackid), plus every unregistered / non-`str` key (`KeyError`).  The guard
-`eiGoodKey` answers the other four entries' keys "outside" (`PyErr.notImplemented`) in the
-guarded store `easyId3ImplG` and in the policy alike; on good keys the guarded store IS the
-model (`easyid3_guard_exact`).  The hypotheses this `_partial` theorem carries, and why:
+musicbrainz_trackid), `website` (one WOAR frame per URL; read-back = first occurrences), plus
+every unregistered / non-`str` key (`KeyError`).  The guard `eiGoodKey` answers the keys of the
+other three entries "outside" (`PyErr.notImplemented`) in the guarded store `easyId3ImplG` and
+in the policy alike; on operation sequences that mention good keys only, the guarded store, the
+plain model `easyId3Impl` and the real object with its residues `easyId3Run` produce the same
+outputs (`easyid3_run_congr`, `easyid3_real_run_congr`), so `easyid3_trace_equiv_partial` speaks
+about the unguarded store.  The hypotheses, and why:
 
 * no `replaygain_*` key — gain and peak share one RVA2 frame: setting one makes the other
   appear, deleting one leaves it (`easyid3_replaygain_coupling_witness`), deleting an absent
@@ -20,8 +23,8 @@ model (`easyid3_guard_exact`).  The hypotheses this `_partial` theorem carries, 
   (`easyid3_keys_duplicate_witness`).  Excluding only gain/peak PAIRS with one description, as
   planned, is not enough: the lone `replaygain_x_gain` already makes `replaygain_x_peak` appear.
 * no `performer:*` key — the handler gets the role as typed (`easyid3_glob_case_witness`);
-  the refinement for lower-case roles is NOT proved in this round (all roles share TMCL),
-  nor for `website` (one WOAR frame per URL); both are covered by the tie only.
+  the refinement for lower-case roles is still NOT proved (all roles share TMCL, the key is a
+  glob instance): covered by the tie only.
 * values: no hypothesis is needed for the refinement (what the setter refuses, the policy
   refuses with the same class; shapes outside the model's domain are "outside" on both sides);
   "only KeyError/TypeError/ValueError" fails for non-`str` items
@@ -50,11 +53,35 @@ theorem easyid3_guard_exact (s : Id3) (k : PKey) (v : PVal) (h : eiGoodKey k = t
       easyId3ImplG.delitem s k = easyId3Impl.delitem s k ∧ easyId3ImplG.keys s = easyId3Impl.keys s := by
   simp [easyId3ImplG, easyId3Impl, h]
 
-/-- PARTIAL: a fresh `EasyID3()`, any sequence of mapping operations: the reference accepts the
-guarded store's outputs (operations on the excluded keys are "outside" on both sides) -/
-theorem easyid3_trace_equiv_partial (ops : List (Op PKey PVal)) :
-    KAccepts easyId3PolicyG [] ops (easyId3ImplG.run ops []) :=
-  ktrace_sim easyid3_refines_aux ops [] [] easyId3Inv_nil (fun _ => rfl) List.nodup_nil
+/-- RUN CONGRUENCE: on operation sequences that mention good keys only (`Op.keysOf`), from any
+state satisfying the invariant, the guarded store and the model of the class produce the same
+outputs and end in the same native tags -/
+theorem easyid3_run_congr (ops : List (Op PKey PVal)) (s : Id3) (hs : EasyId3Inv s)
+    (hops : ∀ op ∈ ops, ∀ k ∈ Op.keysOf op, eiGoodKey k = true) :
+    easyId3Impl.run ops s = easyId3ImplG.run ops s ∧ easyId3Impl.exec ops s = easyId3ImplG.exec ops s :=
+  have h := easyid3_run_congr_aux ops s hs hops
+  ⟨h.1.symm, h.2.symm⟩
+
+/-- … and so does the real object, whose raising `__setitem__` can leave residues
+(`easyId3Step` / `easyId3Run`): on good keys there are none -/
+theorem easyid3_real_run_congr (ops : List (Op PKey PVal)) (s : Id3) (hs : EasyId3Inv s)
+    (hops : ∀ op ∈ ops, ∀ k ∈ Op.keysOf op, eiGoodKey k = true) :
+    easyId3Run ops s = easyId3Impl.run ops s := by
+  rw [easyid3_real_run_congr_aux ops s hs hops, (easyid3_run_congr_aux ops s hs hops).1]
+
+/-- PARTIAL (hypothesis: only good keys are mentioned): a fresh `EasyID3()`, the UNGUARDED
+model of the class: the reference accepts its outputs, operation by operation -/
+theorem easyid3_trace_equiv_partial (ops : List (Op PKey PVal))
+    (hops : ∀ op ∈ ops, ∀ k ∈ Op.keysOf op, eiGoodKey k = true) :
+    KAccepts easyId3PolicyG [] ops (easyId3Impl.run ops []) ∧ KAccepts easyId3PolicyG [] ops (easyId3Run ops []) := by
+  have h := ktrace_sim easyid3_refines_aux ops [] [] easyId3Inv_nil (fun _ => rfl) List.nodup_nil
+  rw [easyid3_real_run_congr ops [] easyId3Inv_nil hops, (easyid3_run_congr ops [] easyId3Inv_nil hops).1]
+  exact ⟨h, h⟩
+
+/-- on good keys the guarded policy is the documented policy -/
+theorem easyid3_policy_guard_exact (k : PKey) (v : PVal) (h : eiGoodKey k = true) :
+    easyId3PolicyG.norm k = easyId3Policy.norm k ∧ easyId3PolicyG.coerce k v = easyId3Policy.coerce k v := by
+  simp [easyId3PolicyG, h]
 
 /-- the invariant holds along every run of the guarded store -/
 theorem easyid3_inv_along_run (ops : List (Op PKey PVal)) : EasyId3Inv (easyId3ImplG.exec ops []) :=
@@ -65,32 +92,29 @@ theorem easyid3_inv_along_run (ops : List (Op PKey PVal)) : EasyId3Inv (easyId3I
 theorem easyid3_keys_total (s : Id3) (hs : EasyId3Inv s) : easyId3KeysE s = .ok (easyId3Keys s) :=
   easyId3KeysE_inv s hs
 
-/-- CONSISTENCY, set: a successful `view[k] = v` on a good key is `native[HashKey] = frame`,
-the frame being what the entry's setter makes of the value; every other HashKey is as before -/
+/-- CONSISTENCY, set: a successful `view[k] = v` on a good key is either `native[HashKey] =
+frame` (single-frame entries; the frame is what the entry's setter makes of the value) or, for
+`website`, "all `WOAR:…` frames go, one `WOAR:<url>` frame per URL is added" -/
 theorem easyid3_set_native (s s' : Id3) (k : PKey) (v : PVal) (h : easyId3ImplG.setitem s k v = .ok s') :
-    ∃ e kt hk f, eiEntryOf k = some (e, kt) ∧ hkOf e = some hk ∧ slotFrame e v = .ok f ∧ s' = insert hk f s ∧
-      ∀ a, a ≠ hk → lookup a s' = lookup a s := by
-  obtain ⟨e, kt, hk, f, h1, h2, h3, h4⟩ := easySetG_native s s' k v h
-  refine ⟨e, kt, hk, f, h1, h2, h3, h4, ?_⟩
-  intro a ha
-  rw [h4, lookup_insert]
-  have : ¬ hk = a := fun h => ha h.symm
-  simp [this]
+    ∃ e kt, eiEntryOf k = some (e, kt) ∧
+      ((∃ hk f, hkOf e = some hk ∧ eiPlain e = true ∧ slotFrame e v = .ok f ∧ s' = insert hk f s) ∨
+       (e.kind = .website ∧ ∃ l, s' = woarPut l (delallPrefix pWOAR s))) :=
+  easySetG_native s s' k v h
 
-/-- CONSISTENCY, delete: a successful `del view[k]` on a good key is `del native[HashKey]` -/
+/-- CONSISTENCY, delete: `del native[HashKey]`, resp. `native.delall("WOAR")` -/
 theorem easyid3_del_native (s s' : Id3) (k : PKey) (h : easyId3ImplG.delitem s k = .ok s') :
-    ∃ e kt hk, eiEntryOf k = some (e, kt) ∧ hkOf e = some hk ∧ s' = erase hk s ∧
-      ∀ a, a ≠ hk → lookup a s' = lookup a s := by
-  obtain ⟨e, kt, hk, h1, h2, h3⟩ := easyDelG_native s s' k h
-  refine ⟨e, kt, hk, h1, h2, h3, ?_⟩
-  intro a ha
-  rw [h3, lookup_erase_ne _ _ _ (fun h => ha h.symm)]
+    ∃ e kt, eiEntryOf k = some (e, kt) ∧
+      ((∃ hk, hkOf e = some hk ∧ eiPlain e = true ∧ s' = erase hk s) ∨
+       (e.kind = .website ∧ s' = delallPrefix pWOAR s)) :=
+  easyDelG_native s s' k h
 
 /-- CONSISTENCY, whole runs: whatever sequence of mapping operations runs on the guarded view,
-from any native state, a frame whose HashKey no single-frame entry owns is untouched -/
+from any native state, a frame whose HashKey no single-frame entry owns and that is not a
+`WOAR:…` frame is untouched -/
 theorem easyid3_foreign_frames_untouched (ops : List (Op PKey PVal)) (s : Id3) (a : Text)
-    (ha : a ∉ easyId3Owned) : lookup a (easyId3ImplG.exec ops s) = lookup a s :=
-  easyG_foreign_untouched ops s a ha
+    (ha : a ∉ easyId3Owned) (hw : startsWith pWOAR a = false) :
+    lookup a (easyId3ImplG.exec ops s) = lookup a s :=
+  easyG_foreign_untouched ops s a ha hw
 
 /-! ### the deviations the hypotheses exclude (model = code; each checked by the tie) -/
 
@@ -143,6 +167,16 @@ example : easyId3ImplG.run
      .set (.str [109, 117, 115, 105, 99, 98, 114, 97, 105, 110, 122, 95, 116, 114, 97, 99, 107, 105, 100]) (.item (.prim (.str [120]))), .set (.str [98, 97, 114, 99, 111, 100, 101]) (.item (.prim (.str [120]))), .keys, .del (.str [116, 105, 116, 108, 101]), .contains (.str [84, 105, 116, 108, 101]), .get (.str [114, 101, 112, 108, 97, 121, 103, 97, 105, 110, 95, 97, 108, 98, 117, 109, 95, 103, 97, 105, 110]), .len] [] =
     [.unit, .val (.list [(.prim (.str [120]))]), .unit, .val (.list [.prim (.str [50, 48, 48, 52, 45, 48, 49, 45, 48, 50, 32, 48, 51])]), .err .value, .unit, .unit,
      .keys [(.str [116, 105, 116, 108, 101]), (.str [100, 97, 116, 101]), (.str [109, 117, 115, 105, 99, 98, 114, 97, 105, 110, 122, 95, 116, 114, 97, 99, 107, 105, 100]), (.str [98, 97, 114, 99, 111, 100, 101])], .unit, .bool false, .err .notImplemented, .nat 3] := by
+  decide +kernel
+
+/-- website: three URLs, one twice: read back as first occurrences; the native tags hold one
+WOAR frame per URL; `[]` removes the key; deleting the absent key is a `KeyError` -/
+example : easyId3Impl.run
+    [.set (.str [119, 101, 98, 115, 105, 116, 101]) (.list [(.prim (.str [104, 116, 116, 112, 58, 47, 47, 97])), (.prim (.str [104, 116, 116, 112, 58, 47, 47, 98])), (.prim (.str [104, 116, 116, 112, 58, 47, 47, 97]))]), .get (.str [87, 101, 98, 83, 105, 116, 101]), .keys, .set (.str [119, 101, 98, 115, 105, 116, 101]) (.list []), .contains (.str [119, 101, 98, 115, 105, 116, 101]),
+     .del (.str [119, 101, 98, 115, 105, 116, 101])] [] =
+    [.unit, .val (.list [(.prim (.str [104, 116, 116, 112, 58, 47, 47, 97])), (.prim (.str [104, 116, 116, 112, 58, 47, 47, 98]))]), .keys [(.str [119, 101, 98, 115, 105, 116, 101])], .unit, .bool false, .err .key] ∧
+    easyId3Impl.exec [.set (.str [119, 101, 98, 115, 105, 116, 101]) (.list [(.prim (.str [104, 116, 116, 112, 58, 47, 47, 97])), (.prim (.str [104, 116, 116, 112, 58, 47, 47, 98])), (.prim (.str [104, 116, 116, 112, 58, 47, 47, 97]))])] [] =
+      [([87, 79, 65, 82, 58, 104, 116, 116, 112, 58, 47, 47, 97], .woar [104, 116, 116, 112, 58, 47, 47, 97]), ([87, 79, 65, 82, 58, 104, 116, 116, 112, 58, 47, 47, 98], .woar [104, 116, 116, 112, 58, 47, 47, 98])] ∧ eiGoodKey (.str [119, 101, 98, 115, 105, 116, 101]) = true := by
   decide +kernel
 
 end Mutagen.C16
